@@ -60,6 +60,7 @@ type Case struct {
 	SendHeader  bool     `json:"send_header"`   // SendHeader instead of SetHeader
 	TrailerLate bool     `json:"trailer_late"`  // SetTrailer after the reply was produced (streaming methods only matter; here: before return)
 	Fail        bool     `json:"fail"`
+	Split       bool     `json:"split"` // the handler sets its metadata one value per SetHeader/SetTrailer call (calls accumulate)
 }
 
 var (
@@ -89,6 +90,25 @@ func toMD(kvs []KV) metadata.MD {
 	return md
 }
 
+// inCalls delivers the metadata either in one call or, when split, one value
+// per call (gRPC merges the metadata of successive calls, values in order).
+func inCalls(split bool, kvs []KV, set func(metadata.MD)) {
+	if !split {
+		set(toMD(kvs))
+		return
+	}
+	n := 0
+	for _, kv := range kvs {
+		for _, v := range kv.Vals {
+			set(metadata.MD{strings.ToLower(kv.Key): []string{string(v)}})
+			n++
+		}
+	}
+	if n == 0 {
+		set(metadata.MD{})
+	}
+}
+
 const failMsg = "real failure"
 
 type seen struct {
@@ -105,17 +125,21 @@ func newMux(c Case, s *seen) *larking.Mux {
 	unary := func(ctx context.Context, fm string, req *dynamicpb.Message) (proto.Message, error) {
 		s.ran = true
 		s.md, _ = metadata.FromIncomingContext(ctx)
-		hmd, tmd := toMD(c.Header), toMD(c.Trailer)
+		setTrailer := func() { inCalls(c.Split, c.Trailer, func(md metadata.MD) { grpc.SetTrailer(ctx, md) }) }
 		if !c.TrailerLate {
-			grpc.SetTrailer(ctx, tmd)
+			setTrailer()
 		}
-		if c.SendHeader {
-			grpc.SendHeader(ctx, hmd)
-		} else {
-			grpc.SetHeader(ctx, hmd)
+		switch {
+		case c.SendHeader && !c.Split:
+			grpc.SendHeader(ctx, toMD(c.Header))
+		case c.SendHeader:
+			inCalls(true, c.Header, func(md metadata.MD) { grpc.SetHeader(ctx, md) })
+			grpc.SendHeader(ctx, metadata.MD{})
+		default:
+			inCalls(c.Split, c.Header, func(md metadata.MD) { grpc.SetHeader(ctx, md) })
 		}
 		if c.TrailerLate {
-			grpc.SetTrailer(ctx, tmd)
+			setTrailer()
 		}
 		if c.Fail {
 			return nil, status.Error(codes.FailedPrecondition, failMsg)
@@ -544,6 +568,7 @@ func genCase(t *rapid.T, transports []string) Case {
 		}
 	}
 	c.SendHeader = rapid.Bool().Draw(t, "sendHeader")
+	c.Split = rapid.IntRange(0, 2).Draw(t, "split") == 0
 	c.TrailerLate = rapid.Bool().Draw(t, "trailerLate")
 	return c
 }
@@ -587,7 +612,7 @@ func record(c Case) {
 	}
 	key := ""
 	if nontriv {
-		key = fmt.Sprintf("%s|%v|%v|%v|%v|%v|%v", c.Transport, c.Req, c.Header, c.Trailer, c.SendHeader, c.TrailerLate, c.Fail)
+		key = fmt.Sprintf("%s|%v|%v|%v|%v|%v|%v|%v", c.Transport, c.Req, c.Header, c.Trailer, c.SendHeader, c.TrailerLate, c.Fail, c.Split)
 	}
 	evid.Eval(key, cl...)
 }
